@@ -16,6 +16,8 @@ DESIGN = dict(
     StripInPlace=False,     # oneof.go 431-439 clones before deleting the discriminator
     StripRestore=False,     # ... and does not take it out of the caller's map temporarily either
     DirtyScratch=False,     # object.go validateStruct allocates its scratch map of present fields per call
+    SharedMarks=False,      # object.go inlineShorthandTerminates keeps its visited set per call
+    SharedInProgress=False, # object.go validateSchemaCompatibility keeps no state across calls
     NoStepMutex=False,      # step.go 200-223 holds initializerMutex
     EnumEarlyReturn=False,  # enum.go: repaired (return nil -> continue)
 )
@@ -31,6 +33,9 @@ CONCRETE = {
     ("units0", "rebuilt"): ["int_chars", "int_pct", "float_pct", "int_custom0"],
     ("objmap", "fresh"): ["objmap"], ("objmap", "rebuilt"): ["objmap", "plugin_input"],
     ("objstruct", "fresh"): ["objstruct"], ("objstruct", "rebuilt"): ["objstruct"],
+    ("chain", "fresh"): ["chain"], ("chain", "rebuilt"): ["chain"],
+    ("compat2", "fresh"): ["compat2"], ("compat2", "rebuilt"): ["compat2"],
+    ("objnest", "fresh"): ["objnest"], ("objnest", "rebuilt"): ["objnest"],
     ("objdep", "fresh"): ["objdep"], ("objdep", "rebuilt"): ["objdep"],
     ("mapcoll", "fresh"): ["mapcoll", "anycoll"], ("mapcoll", "rebuilt"): ["mapcoll", "anycoll"],
     ("oneof", "fresh"): ["oneof_map", "oneof_struct"], ("oneof", "rebuilt"): ["oneof_map", "oneof_struct"],
@@ -60,7 +65,7 @@ def tlc_export(ctx, cfg, name, env=None, workers=4, timeout=1500, extra=None, al
     return r, recs
 
 
-def deviations(ctx, cfg, expected):
+def deviations(ctx, cfg, expected, must_violate=None):
     """For every named deviation in `expected` (name -> set of witness classes that must appear) check the model
     with that deviation alone switched on, twice: (a) cfg 'devv': the properties themselves as invariants - TLC
     must report one of them violated (its shortest counterexample ends the run); (b) cfg 'dev': the whole state
@@ -68,9 +73,18 @@ def deviations(ctx, cfg, expected):
     fails.  Returns {name: [witness records]}.  A deviation the model can no longer exhibit means the
     specification has lost the ability to express the defect: Infra."""
     verdict_cfg = cfg.replace("instance_dev_", "instance_devv_")
+    # must_violate: {deviation: (cfg, invariant)} - an additional run in which TLC must report exactly this property
+    must_violate = must_violate or {}
 
     def one(job):
         dev, verdict = job
+        if verdict == "must":
+            mcfg, inv = must_violate[dev]
+            r, _ = tlc_export(ctx, mcfg, "devm-%s" % dev, env={"VERIF_DEV": dev}, workers=2, allow_violation=True)
+            if r.violated != inv:
+                raise common.Infra("Instance.tla with deviation %s (%s): TLC reports %s, expected %s violated" % (
+                    dev, mcfg, r.violated, inv))
+            return dev, verdict, r, None
         if verdict:
             r, _ = tlc_export(ctx, verdict_cfg, "devv-%s-%s" % (cfg.split(".")[0], dev), env={"VERIF_DEV": dev},
                               workers=2, allow_violation=True)
@@ -78,7 +92,7 @@ def deviations(ctx, cfg, expected):
         r, recs = tlc_export(ctx, cfg, "dev-%s-%s" % (cfg.split(".")[0], dev), env={"VERIF_DEV": dev}, workers=3)
         return dev, verdict, r, recs
     res = {}
-    jobs = [(d, v) for d in sorted(expected) for v in (True, False)]
+    jobs = [(d, v) for d in sorted(expected) for v in (True, False)] + [(d, "must") for d in sorted(must_violate)]
     with ThreadPoolExecutor(max_workers=8) as ex:
         for dev, verdict, r, recs in ex.map(one, jobs):
             if verdict:
@@ -223,6 +237,8 @@ def validate_trace(ctx, trace, tag, concurrent=False):
                 divs.add(TRACE_WHY.get(w, w))
             for div in sorted(divs):
                 cls = line["tok"]
+                if line["kind"] == "objnest":
+                    cls = "limits_given" if line["tok"].startswith("lim_") else "limits_left_out"
                 if line["kind"] in ("objmap", "objstruct") and line["op"] == "unser" and line["tok"] != "bad":
                     m = line["m"]
                     cls = "default_filling" if (m["n"] < 0 or (line["kind"] == "objstruct" and m["sa"] < 0 and m["sb"] < 0)) else "complete"
